@@ -112,7 +112,7 @@ def verdict_checks(run, sc, out, label):
 
 
 WORKER_FAULTS = ['worker_late_answer', 'worker_hang', 'worker_exit', 'worker_abort', 'worker_late_death']
-EPS = [0.0, -0.01, 0.01, 0.0005]
+EPS = [0.0, 0.0005, 0.0002, -0.01, 0.01]
 
 
 def _run(tape):
@@ -123,6 +123,7 @@ def _run(tape):
     eps = tape.draw(len(EPS))
     sc = E.Scenario(tape, force_dedicated=True if placed else None)
     if placed:
+        sc.n = min(sc.n, 6)
         sc.behaviours = ['equal'] * sc.n
         p = pos % sc.n
         sc.behaviours[p] = WORKER_FAULTS[kind % 5]
@@ -135,7 +136,7 @@ def _run(tape):
         if kind % 5 in (0, 4):
             # the race between the parent giving up and the late answer needs computation to cost time
             sc.jitter = 4
-            sc.preempt = max(sc.preempt, 0.3)
+            sc.preempt = 0.6
     run.say(sc.describe())
     out = E.run_scenario(run, tape, sc)
     verdicts = verdict_checks(run, sc, out, 'dedicated' if sc.dedicated else 'in-process')
@@ -183,12 +184,12 @@ def run_index(i, seed, tier, emit):
     t = Tape(seed, prefix=[0])
     emit(safe_run_tape(mod, t), t)
     # systematic placement on this seed's configuration: one worker fault at every position, every tie-break epsilon
-    for pos in range(12):
+    for pos in range(6):
         for kind in range(5):
             for eps in (range(len(EPS)) if kind in (0, 4) else [0]):
                 t = Tape(seed, prefix=[1, pos, kind, eps])
                 emit(safe_run_tape(mod, t), t)
-    for pos in range(0, 12, 4):
+    for pos in range(0, 6, 2):
         for kind in range(10):
             t = Tape(seed, prefix=[2, pos, kind, (pos + kind) % len(EPS)])
             emit(safe_run_tape(mod, t), t)
